@@ -5,6 +5,10 @@ passed.  `enumerate_branches(run)` explores the tree of draws depth-first and re
 import numpy as np
 
 
+class InvalidDistribution(ValueError):
+    """raised where numpy.random would raise ValueError: the fault lies with the code that asked for the draw (see pyvc/runner.py)"""
+
+
 class ScriptedRNG(np.random.RandomState):
     def __init__(self, script):
         super().__init__(0)
@@ -15,6 +19,9 @@ class ScriptedRNG(np.random.RandomState):
 
     def _decide(self, probs):
         probs = np.asarray(probs, dtype=float)
+        if not np.all(np.isfinite(probs)) or np.any(probs < -1e-9) or abs(float(probs.sum()) - 1.0) > 1e-6:
+            # what numpy's own generator does with such a vector: the caller handed over something that is not a distribution
+            raise InvalidDistribution(f"probabilities are not a distribution: {probs.tolist()[:8]}")
         options = [i for i, p in enumerate(probs) if p > 1e-12]
         if self.pos < len(self.script):
             c = self.script[self.pos]
